@@ -33,26 +33,18 @@ from ..leanbridge import Driver
 from .. import vsched
 from ..vsched import Session, VHang, S
 
-THEOREMS = [
-    "TDV.PM.inv_reachable",
-    "TDV.PM.readahead_bound",
-    "TDV.PM.release_never_overflows",
-    "TDV.PM.delivered_prefix",
-    "TDV.PM.complete",
-    "TDV.PM.unordered_perm",
-    "TDV.PM.error_after_prefix",
-    "TDV.PM.state_tracks_consumer",
-    "TDV.PM.progress_partial",
-    "TDV.PM.progress_statement_false_source_error",
-    "TDV.PM.progress_statement_false_worker_death",
-    "TDV.PM.hang_after_source_error_forever",
-    "TDV.PM.hang_after_worker_death_forever",
-    "TDV.PM.variant",
-    "TDV.PM.next_after_end_prompt",
-    "TDV.PM.released_reader",
-    "TDV.PM.released_worker",
-    "TDV.PM.released_sorter",
-]
+THEOREMS_BY_PROPERTY = {
+    "C04": ["TDV.PM.bookkeeping", "TDV.PM.delivered_prefix", "TDV.PM.delivered_prefix_total", "TDV.PM.complete",
+            "TDV.PM.unordered_perm"],
+    "C06": ["TDV.PM.state_tracks_consumer"],
+    "C11": ["TDV.PM.error_after_prefix", "TDV.PM.progress_partial", "TDV.PM.variant", "TDV.PM.next_after_end_prompt",
+            "TDV.PM.progress_statement_false_source_error", "TDV.PM.progress_statement_false_worker_death",
+            "TDV.PM.hang_after_source_error_forever", "TDV.PM.hang_after_worker_death_forever"],
+    "C12": ["TDV.PM.readahead_bound", "TDV.PM.readahead_bound_returned", "TDV.PM.release_never_overflows"],
+    "C17": ["TDV.PM.released_reader", "TDV.PM.released_worker", "TDV.PM.released_sorter", "TDV.PM.stop_stays",
+            "TDV.PM.Gen.released"],
+}
+THEOREMS = ["TDV.PM.inv_reachable"] + [t for ts in THEOREMS_BY_PROPERTY.values() for t in ts]
 LEAN_MODULES = ["TorchDataVerif.Props.PM"]
 RULE = ("cases are generated from one PRNG: num_workers 1-3, max_concurrent None or 1..N, snapshot_frequency 0-3, in_order both, "
         "method thread (K-T, K-O) and process (K-O kill sweep), sources of 0-8 ints ending in StopIteration or an exception, "
@@ -197,12 +189,16 @@ class Gen:
         self.ref = None
         self.complete = False
 
+    def vts_early(self):
+        return self.vts
+
 
 class Instr:
     """context manager: wraps the three unlogged operations for the duration of a case"""
 
     def __init__(self):
         self.gens: List[Gen] = []
+        self.pnames: Dict[str, Tuple[int, int]] = {}  # virtual process name -> (generation, worker id)
 
     def __enter__(self):
         import torchdata.nodes.map as M
@@ -211,7 +207,16 @@ class Instr:
         self.o_init = M._ParallelMapperIter.__init__
         self.o_pop = SS.QueueSnapshotStore.pop_version
         self.o_empty = vsched.VQueue.empty
+        self.o_pinit = vsched.VProcess.__init__
         instr = self
+
+        def pinit(proc, *a, **k):
+            instr.o_pinit(proc, *a, **k)
+            tgt = k.get("target")
+            args = k.get("args", ())
+            if getattr(tgt, "__name__", "") == "_apply_udf" and instr.gens:
+                instr.pnames[proc.name] = (len(instr.gens) - 1, args[0])
+                instr.gens[-1].wnames[proc.name] = args[0]
 
         def init(it, *a, **k):
             g = Gen(len(instr.gens))
@@ -243,6 +248,7 @@ class Instr:
         M._ParallelMapperIter.__init__ = init
         SS.QueueSnapshotStore.pop_version = pop_version
         vsched.VQueue.empty = empty
+        vsched.VProcess.__init__ = pinit
         return self
 
     def capture(self, g: Gen, it):
@@ -274,6 +280,7 @@ class Instr:
         self.M._ParallelMapperIter.__init__ = self.o_init
         self.SS.QueueSnapshotStore.pop_version = self.o_pop
         vsched.VQueue.empty = self.o_empty
+        vsched.VProcess.__init__ = self.o_pinit
         return False
 
 
@@ -329,8 +336,14 @@ def translate(events: List[tuple], gens: List[Gen], in_order: bool):
             return "w%d" % wk[(gi, tname)]
         return "?"
 
+    aborted = False
     for e in events:
         tname, op = e[0], e[1]
+        if op == "abort":
+            aborted = True
+            continue
+        if aborted and tname == "main":
+            continue
         if op == "gen":
             cur_gen = e[2]
             continue
@@ -452,12 +465,30 @@ def run_case(case, log=True, probe_held=False, check_release=False, delay=0.0, o
     kill = case.get("kill")
     import gc
     gc_was = gc.isenabled()
+    _freeze_heap()
     gc.disable()  # a cyclic-GC run may call `_ParallelMapperIter.__del__` (=> switch points) at arbitrary places; collect at op boundaries
     try:
         return _run_case(case, r, sc, weights, kill, probe_held, check_release, delay, op_budget)
     finally:
         if gc_was:
             gc.enable()
+
+
+_frozen = False
+
+
+def _freeze_heap():
+    """torch's import leaves a very large heap; a full collection costs ~80 ms.  Move what exists now to the permanent
+    generation once per process so that the explicit collections at operation boundaries only look at the case's objects."""
+    global _frozen
+    if not _frozen:
+        import gc
+        import torch  # noqa: F401  (import everything heavy BEFORE freezing)
+        import torchdata.nodes  # noqa: F401
+        import torchdata.nodes.map  # noqa: F401
+        gc.collect()
+        gc.freeze()
+        _frozen = True
 
 
 def _run_case(case, r, sc, weights, kill, probe_held, check_release, delay, op_budget):
@@ -479,7 +510,7 @@ def _run_case(case, r, sc, weights, kill, probe_held, check_release, delay, op_b
                     wi = g.wnames.get(me.name)
                     if wi is None:
                         nm = me.name
-                        if nm.startswith("worker_thread_"):
+                        if nm.startswith("worker_thread_") and me in g.vts_early():
                             wi = int(nm[len("worker_thread_"):].split("(")[0])
                     if wi != kill["worker"]:
                         return False
@@ -600,6 +631,7 @@ def _run_case(case, r, sc, weights, kill, probe_held, check_release, delay, op_b
             except VHang as h:
                 r.hang = str(h)
                 r.obs.append(("hang",))
+                s.ev("abort")  # the harness unwinds the consumer out of next(): its later events are not the protocol's
             r.events = list(s.events)
             r.n_timeouts = s.n_timeouts
             r.n_switch = s.n_switch
@@ -617,9 +649,16 @@ def _wait_old(s, instr, upto, limit):
     def alive():
         return any(vt.state != "done" for g in instr.gens[:upto] for vt in g.vts)
 
-    while alive() and s.clock < end and s.hang is None:
-        s.switch(lambda: False, min(0.5, end - s.clock))
-        s.begin_op()
+    # While the consumer idles, time passes only when nothing can run (benign timeouts, no starvation): a thread that is
+    # still alive after `limit` virtual seconds has then really had every chance to exit.
+    adv, w = s.adversarial, s.weights
+    s.adversarial, s.weights = False, {}
+    try:
+        while alive() and s.clock < end and s.hang is None:
+            s.switch(lambda: False, min(0.5, end - s.clock))
+            s.begin_op()
+    finally:
+        s.adversarial, s.weights = adv, w
 
 
 # --------------------------------------------------------------------------------------------------------------
@@ -653,7 +692,7 @@ def gen_case(rng, method="thread", allow_reset=True) -> Dict[str, Any]:
     if term == "error" or fail:
         # after a SOURCE error the next next() hangs (known defect C11-a): stop the history at the error for K-T cases
         pass
-    sched = {"seed": rng.randrange(1 << 30), "adv": rng.random() < 0.4, "starve": (rng.randrange(N) if rng.random() < 0.25 else None)}
+    sched = {"seed": rng.randrange(1 << 30), "adv": rng.random() < 0.4, "starve": (rng.randrange(N) if rng.random() < (0.45 if N >= 2 else 0.1) else None)}
     return {"N": N, "mc": mc, "f": f, "in_order": in_order, "method": method, "items": items, "term": term, "fail": fail,
             "hist": hist, "sched": sched, "kill": None}
 
@@ -669,7 +708,7 @@ def model_cfg(case, g: Gen) -> Dict[str, Any]:
 
 
 def _kt_one(ctx: Ctx, case) -> Optional[Dict[str, Any]]:
-    r = run_case(case, op_budget=6.0)
+    r = run_case(case, op_budget=4.0)
     traces, stale = translate(r.events, r.gens, case["in_order"])
     reqs = []
     for g, tr in zip(r.gens, traces):
@@ -678,11 +717,14 @@ def _kt_one(ctx: Ctx, case) -> Optional[Dict[str, Any]]:
             "overlap": r.max_inside > 1 or bool(stale)}
 
 
-def run_kt(ctx: Ctx, n_quick: int = 260, n_thorough: int = 6000):
+def run_kt(ctx: Ctx, n_quick: int = 200, n_thorough: int = 6000):
     """K-T leg: every event trace of the real threads must be accepted by the Lean model."""
     n = ctx.n(n_quick, n_thorough)
     rng = ctx.sub_rng("kt_pm")
     cases = [gen_case(rng) for _ in range(n)]
+    # method="process" with a worker killed at some switch point (the model's wDie), about one case in ten
+    for c in gen_kill_jobs(rng, max(1, n // 60), 6):
+        cases.append(c)
     results = ctx.pmap(_kt_one, cases)
     reqs, metas = [], []
     for res in results:
@@ -719,3 +761,300 @@ def run_kt(ctx: Ctx, n_quick: int = 260, n_thorough: int = 6000):
         ctx.count("kt_pm:events", len(q["trace"]))
         if len(ctx.samples) < 2:
             ctx.sample({"leg": "kt_pm", "case": case, "gen": gi, "events": len(q["trace"]), "answer": ans})
+
+
+# --------------------------------------------------------------------------------------------------------------
+# K-O: the properties measured directly on the real threads
+
+
+def is_hang_after_source_error(f: Failure) -> bool:
+    return f.kind == "C11:hang_after_source_error"
+
+
+def is_hang_after_worker_death(f: Failure) -> bool:
+    return f.kind == "C11:hang_after_worker_death"
+
+
+KNOWN = {
+    "pm-next-after-source-error-hangs": is_hang_after_source_error,
+    "pm-process-worker-death-hangs": is_hang_after_worker_death,
+}
+
+
+def _classify_hang(ctx: Ctx, case, r: Run, oracle: str):
+    inp = {"oracle": oracle, "case": case}
+    seen = [o for o in r.obs if o != ("hang",)]
+    if r.killed:
+        ctx.fail("C11:hang_after_worker_death", inp,
+                 f"method=process: worker {case['kill']['worker']} was killed at its switch point {case['kill']['at']}; a later next() "
+                 f"polls forever ({r.hang}); results before the hang: {seen[-4:]}")
+    elif ("e", "src") in r.obs:
+        ctx.fail("C11:hang_after_source_error", inp,
+                 f"the source raised, next() re-raised it once, and the following next() polls forever ({r.hang}); "
+                 f"results before the hang: {seen[-4:]}")
+    else:
+        # adversarial timeouts inflate virtual time: confirm with a budget of 400 virtual seconds before reporting
+        r2 = run_case(case, op_budget=400.0)
+        if r2.hang is not None:
+            ctx.fail("C11:hang", inp, f"next() did not return within 400 virtual seconds ({r2.hang}); results so far: {seen[-6:]}")
+        else:
+            ctx.count("ko_pm:slow_only_under_adversarial_timeouts")
+
+
+def check_stream(ctx: Ctx, case, r: Run, oracle: str):
+    """C04 / C11 on the observed result sequence of a history made of next() calls only."""
+    inp = {"oracle": oracle, "case": case}
+    ref = ref_results(case)
+    obs = [o for o in r.obs if o[0] in ("i", "e", "s")]
+    canon = [("i", o[1]) if o[0] == "i" else ("e", 0) if o[0] == "e" else ("s", 0) for o in obs]
+    if case["in_order"] and not r.killed:
+        # results must be the reference sequence, then StopIteration for ever
+        exp = list(ref) + [("s", 0)] * max(0, len(canon) - len(ref)) if case["term"] == "stop" else list(ref)
+        if canon[:len(exp)] != exp[:len(canon)]:
+            k = next((j for j, (a, b) in enumerate(zip(canon, exp)) if a != b), min(len(canon), len(exp)))
+            ctx.fail("C04:stream_differs", inp, f"result {k} of successive next() calls is {canon[k:k + 2]}, reference {exp[k:k + 2]}")
+    elif not r.killed:
+        items = sorted(o[1] for o in canon if o[0] == "i")
+        ref_items = sorted(o[1] for o in ref if o[0] == "i")
+        n_err = sum(1 for o in canon if o[0] == "e")
+        if ("s", 0) in canon:
+            first_stop = canon.index(("s", 0))
+            if any(o != ("s", 0) for o in canon[first_stop:]):
+                ctx.fail("C11:item_after_stop", inp, f"a result after StopIteration: {canon[first_stop:first_stop + 3]}")
+            if case["term"] != "stop":
+                ctx.fail("C11:stop_instead_of_error", inp, "StopIteration was raised although the source ended with an exception")
+            elif items != ref_items or n_err != len(case["fail"]):
+                ctx.fail("C04:multiset_differs", inp, f"at StopIteration delivered items {items}, errors {n_err}; reference {ref_items}, {len(case['fail'])}")
+        else:
+            bad = [x for x in items if x not in ref_items] or len(items) != len(set(items))
+            if bad:
+                ctx.fail("C04:multiset_differs", inp, f"delivered {items} is not a sub-multiset of the reference {ref_items}")
+    # errors carry the right kind
+    for o in r.obs:
+        if o[0] == "e" and o[1] not in ("src", "map"):
+            ctx.fail("C11:unexpected_exception", inp, f"next() raised {o[1]}")
+    if r.hang is not None:
+        _classify_hang(ctx, case, r, oracle)
+
+
+def _ko_stream(ctx: Ctx, case):
+    r = run_case(case, probe_held=True, check_release=True, op_budget=4.0)
+    check_stream(ctx, case, r, "stream")
+    inp = {"oracle": "stream", "case": case}
+    mx = max_tasks(case)
+    if r.held_at is not None:
+        ctx.fail("C12:held_exceeds", inp, r.held_at)
+    if r.max_inside > 1:
+        ctx.fail("C12:two_threads_in_source", inp, f"{r.max_inside} threads were inside the source's next() at the same time")
+    for l in r.leaks:
+        ctx.fail("C17:thread_not_released", inp, f"threads still alive 5 virtual seconds {l}")
+    ctx.case("ko_pm_stream", case, r.n_timeouts > 0 or len(case["items"]) > 1)
+    ctx.count("ko_pm:max_held=%d/%d" % (r.max_held, mx))
+    ctx.count("ko_pm:hang" if r.hang else "ko_pm:no_hang")
+    return None
+
+
+def _ko_resume(ctx: Ctx, job):
+    """C06: state_dict at consumer position k under one schedule -> fresh node, reset(sd) under another schedule -> remainder"""
+    case, k, sched2 = job
+    c1 = dict(case)
+    c1["hist"] = ["next"] * k + ["sd"]
+    r1 = run_case(c1, op_budget=4.0)
+    inp = {"oracle": "resume", "case": case, "k": k, "sched2": sched2}
+    if r1.hang is not None or not r1.sds:
+        if r1.hang is not None:
+            _classify_hang(ctx, c1, r1, "resume")
+        return None
+    ref = ref_results(case)
+    if any(o[0] == "e" for o in r1.obs):
+        return None  # C06 is stated for streams on which no error has been raised
+    sd = r1.sds[-1]
+    delivered = sum(1 for o in r1.obs if o[0] == "i")
+    it = sd["it_state"]
+    f = case["f"]
+    jstar = (delivered // f) * f if f > 0 else 0
+    if (it["snapshot"]["pos"], it["steps_since_snapshot"]) != (jstar, delivered - jstar):
+        ctx.fail("C06:state_not_closed_form", inp,
+                 f"after {delivered} items state_dict() = (source position {it['snapshot']['pos']}, steps {it['steps_since_snapshot']}), "
+                 f"closed form ({jstar}, {delivered - jstar})")
+    c2 = dict(case)
+    c2["sched"] = sched2
+    rest = len(ref) - delivered
+    c2["hist"] = ["next"] * (rest if ref[-1] == ("e", 0) else rest + 1)
+    r2 = _run_resumed(c2, sd)
+    got = [("i", o[1]) if o[0] == "i" else ("e", 0) if o[0] == "e" else ("s", 0) for o in r2.obs if o[0] in ("i", "e", "s")]
+    exp = ref[min(delivered, len(ref)):] if delivered < len(ref) else [("s", 0)]
+    if ref[-1] == ("s", 0):
+        exp = exp + [("s", 0)]
+    if r2.hang is None and got[:len(exp)] != exp[:len(got)] or (r2.hang is None and len(got) < min(len(exp), len(c2["hist"]))):
+        ctx.fail("C06:resume_differs", inp, f"state taken after {delivered} items; resumed stream {got}, reference remainder {exp}")
+    if r2.obs and r2.obs[0][0] == "reload_err":
+        ctx.fail("C06:resume_raises", inp, f"reset(state_dict) raised {r2.obs[0][1]}")
+    ctx.case("ko_pm_resume", inp, delivered > 0 and delivered % max(f, 1) != 0 or r1.n_timeouts > 0)
+    ctx.count("ko_pm:resume_pos_mod_f=%s" % ("boundary" if f > 0 and delivered % f == 0 else "inside" if f > 0 else "f0"))
+    return None
+
+
+def _run_resumed(case, sd) -> Run:
+    r = Run()
+    import gc
+    gc_was = gc.isenabled()
+    _freeze_heap()
+    gc.disable()
+    try:
+        sc = case["sched"]
+        with Instr() as instr:
+            with Session(sc["seed"], adversarial=bool(sc.get("adv")), log=False, op_budget=4.0) as s:
+                src = Src(case["items"], case["term"])
+                node = build_node(case, src)
+                try:
+                    s.begin_op()
+                    try:
+                        node.reset(sd)
+                    except VHang:
+                        raise
+                    except Exception as e:  # noqa: BLE001
+                        r.obs.append(("reload_err", _err_kind(e)))
+                        node = None
+                    for _op in case["hist"]:
+                        if node is None:
+                            break
+                        s.begin_op()
+                        try:
+                            r.obs.append(("i", next(node)))
+                        except StopIteration:
+                            r.obs.append(("s",))
+                        except VHang:
+                            raise
+                        except Exception as e:  # noqa: BLE001
+                            r.obs.append(("e", _err_kind(e)))
+                except VHang as h:
+                    r.hang = str(h)
+                node = None
+    finally:
+        if gc_was:
+            gc.enable()
+    return r
+
+
+def _ko_lifecycle(ctx: Ctx, case):
+    """C17 (+C04 per epoch): reset mid-epoch / del / exhaustion: old-generation threads exit within 5 virtual seconds"""
+    r = run_case(case, probe_held=True, check_release=True, op_budget=8.0)
+    inp = {"oracle": "lifecycle", "case": case}
+    for l in r.leaks:
+        ctx.fail("C17:thread_not_released", inp, f"threads still alive 5 virtual seconds {l}")
+    if r.held_at is not None:
+        ctx.fail("C12:held_exceeds", inp, r.held_at)
+    if r.hang is not None:
+        _classify_hang(ctx, case, r, "lifecycle")
+    # the epoch after a reset starts from the first item again (in order, unless an old reader overlapped: C12's other half)
+    if "reset" in case["hist"] and case["in_order"] and r.hang is None and r.max_inside <= 1:
+        ref = ref_results(case)
+        _tr, stale = translate(r.events, r.gens, True)
+        segs, cur = [], None
+        for o in r.obs:
+            if o == ("reset",):
+                cur = []
+                segs.append(cur)
+            elif cur is not None and o[0] in ("i", "e", "s"):
+                cur.append(("i", o[1]) if o[0] == "i" else ("e", 0) if o[0] == "e" else ("s", 0))
+        for canon in segs:
+            if not stale and canon[:len(ref)] != ref[:len(canon)]:
+                ctx.fail("C04:epoch_after_reset_differs", inp, f"after reset() the stream is {canon[:4]}, reference {ref[:4]}")
+        if stale:
+            ctx.count("ko_pm:old_reader_after_reset")
+    ctx.case("ko_pm_lifecycle", case, True)
+    return None
+
+
+def gen_kill_jobs(rng, n_cfg: int, max_at: int):
+    jobs = []
+    for _ in range(n_cfg):
+        N = rng.choice([1, 2])
+        n = rng.choice([1, 2, 3])
+        case0 = {"N": N, "mc": None, "f": rng.choice([0, 1, 2]), "in_order": rng.random() < 0.6, "method": "process",
+                 "items": list(range(10, 10 + n)), "term": "stop", "fail": [], "hist": ["next"] * (n + 2),
+                 "sched": {"seed": rng.randrange(1 << 30), "adv": False, "starve": None}}
+        w = rng.randrange(N)
+        for at in range(1, max_at + 1):
+            c = dict(case0)
+            c["kill"] = {"worker": w, "at": at}
+            jobs.append(c)
+    return jobs
+
+
+def _ko_kill(ctx: Ctx, case):
+    r = run_case(case, op_budget=4.0)
+    check_stream(ctx, case, r, "kill")
+    ctx.case("ko_pm_kill", case, r.killed)
+    ctx.count("ko_pm:kill:" + ("not_reached" if not r.killed else "hang" if r.hang else "survived"))
+    return None
+
+
+def run_ko(ctx: Ctx, scale: float = 1.0):
+    """K-O legs: C04 outputs vs reference, C06 resume at every position, C11 extra next() / hangs, C12 held <= max at every
+    switch point, C17 threads released, C11-b process worker killed at enumerated switch points."""
+    rng = ctx.sub_rng("ko_pm")
+    # stream cases, several schedules each
+    stream = []
+    for _ in range(int(ctx.n(50, 1500) * scale)):
+        c = gen_case(rng, allow_reset=False)
+        total = len(c["items"]) + 1
+        c["hist"] = ["next"] * (total + 2)
+        for k in range(ctx.n(2, 4)):
+            c2 = dict(c)
+            c2["sched"] = {"seed": rng.randrange(1 << 30), "adv": k % 2 == 1, "starve": (rng.randrange(c["N"]) if k == 2 else None)}
+            stream.append(c2)
+    ctx.pmap(_ko_stream, stream)
+    # resume at every position
+    jobs = []
+    for _ in range(int(ctx.n(24, 500) * scale)):
+        c = gen_case(rng, allow_reset=False)
+        c["in_order"] = True
+        c["fail"] = []
+        total = len(c["items"])
+        ks = list(range(total + 2))
+        if len(ks) > ctx.n(4, 10):
+            ks = sorted(rng.sample(ks, ctx.n(4, 10)))
+        for k in ks:
+            jobs.append((c, k, {"seed": rng.randrange(1 << 30), "adv": rng.random() < 0.5, "starve": None}))
+    ctx.pmap(_ko_resume, jobs)
+    # lifecycles
+    life = []
+    for _ in range(int(ctx.n(30, 600) * scale)):
+        c = gen_case(rng, allow_reset=False)
+        total = len(c["items"]) + 1
+        k = rng.randrange(0, total + 1)
+        tail = rng.choice([["reset"] + ["next"] * (total + 1), ["del"], ["reset", "next", "reset"] + ["next"] * total + ["del"]])
+        c["hist"] = ["next"] * k + tail
+        if c["term"] == "error" and k >= total:
+            c["hist"] = ["next"] * (total - 1) + tail
+        life.append(c)
+    ctx.pmap(_ko_lifecycle, life)
+    # process workers killed at every switch point
+    kills = gen_kill_jobs(rng, int(ctx.n(4, 60) * scale) or 1, ctx.n(14, 40))
+    ctx.pmap(_ko_kill, kills)
+
+
+# --------------------------------------------------------------------------------------------------------------
+# replay of one failing input
+
+
+def replay(ctx: Ctx, inp: Dict[str, Any]):
+    """Re-runs the oracle named in a failing input (as stored by ctx.fail / ctx.diverge)."""
+    case = inp["case"]
+    o = inp.get("oracle")
+    if o == "resume":
+        return _ko_resume(ctx, (case, inp["k"], inp["sched2"]))
+    if o == "lifecycle":
+        return _ko_lifecycle(ctx, case)
+    if o == "kill":
+        return _ko_kill(ctx, case)
+    if o == "stream":
+        return _ko_stream(ctx, case)
+    # a K-T divergence
+    res = _kt_one(ctx, case)
+    answers = Driver().run(res["reqs"])
+    for gi, (q, ans) in enumerate(zip(res["reqs"], answers)):
+        if not ans.get("ok"):
+            ctx.diverge("kt_pm", {"case": case, "gen": gi}, str(ans.get("why")))
